@@ -173,8 +173,10 @@ def mergedFeature (cs : List Child) : RA (Strand × List Blk) :=
 /-- `sorted(chain(genes, feature_collections), key=lambda x: x.start)` -/
 def sortMembers (ms : List Member) : List Member := ms.mergeSort fun a b => decide (a.start ≤ b.start)
 
-/-- `AnnotationCollection.__init__` (bounds), `__len__`, `is_empty`, `iter_children` -/
-def mkAcoll (genes fcs : List Member) (bnd : Option Nat × Option Nat) : RA AcollAns :=
+/-- `AnnotationCollection.__init__` (bounds), `__len__`, `is_empty`, `iter_children`.
+    `pb` = `chrom_parent.location.start/end` when `parent_or_seq_chunk_parent` has a chromosome-typed ancestor with
+    a location. -/
+def mkAcollP (pb : Option (Nat × Nat)) (genes fcs : List Member) (bnd : Option Nat × Option Nat) : RA AcollAns :=
   let chain := genes ++ fcs
   let len := fcs.length + genes.length
   let children := sortMembers chain
@@ -188,9 +190,43 @@ def mkAcoll (genes fcs : List Member) (bnd : Option Nat × Option Nat) : RA Acol
     else throw (.doc .InvalidPosition)
   | (none, none) =>
     let bounds :=
-      match children with
-      | [] => none                                   -- `not self.is_empty` fails: EmptyLocation, no start/end
-      | m :: rest => some (minFrom m.start (rest.map (·.start)), maxFrom m.stop (rest.map (·.stop)))
+      match pb with
+      | some b => some b                               -- the chromosome parent's location decides first
+      | none =>
+        match children with
+        | [] => none                                   -- `not self.is_empty` fails: EmptyLocation, no start/end
+        | m :: rest => some (minFrom m.start (rest.map (·.start)), maxFrom m.stop (rest.map (·.stop)))
     pure { len := len, empty := len == 0, bounds := bounds, order := children.map fun m => (m.isGene, m.idx) }
+
+def mkAcoll (genes fcs : List Member) (bnd : Option Nat × Option Nat) : RA AcollAns := mkAcollP none genes fcs bnd
+
+/-! ### accessors of the primary member (gene/gene.py:162-197) -/
+
+open BioCantor.Spec.Agg (AccAns)
+
+/-- the accessors of a constructed gene whose `primary_transcript` is `(p, c)`; `seq`, `cdsSeq`, `prot` stand for
+    the member methods `get_spliced_sequence`, `get_cds_sequence`, `get_protein_sequence` -/
+def accessors {α : Type} (seq cdsSeq prot : Child → α) (primary : Option (Nat × Child)) : AccAns α :=
+  -- `get_primary_transcript`: `return self.primary_transcript`
+  let tx := primary
+  -- `get_primary_cds`: `if self.get_primary_transcript() is not None: return self.primary_transcript.cds`
+  let cds := match tx with | some pc => pc.2.cds | none => none
+  { transcript := tx.map (·.1)
+    feature := tx.map (·.1)                                           -- `get_primary_feature` = get_primary_transcript
+    cds := cds
+    seq := tx.map fun pc => seq pc.2                                  -- guarded by `get_primary_transcript() is not None`
+    featureSeq := tx.map fun pc => seq pc.2                           -- `get_primary_feature_sequence` delegates
+    cdsSeq := tx.map fun pc => cdsSeq pc.2
+    protein := match tx, cds with                                     -- guarded by `get_primary_cds() is not None`
+      | some pc, some _ => some (prot pc.2)
+      | _, _ => none }
+
+/-- `GeneInterval(transcripts)` followed by all accessors -/
+def geneAccessors {α : Type} (seq cdsSeq prot : Child → α) (cs : List Child) : RA (AccAns α) :=
+  match cs with
+  | [] => throw (.doc .InvalidAnnotation)
+  | _ :: _ => do
+    let p ← findPrimary currentRule true cs
+    pure (accessors seq cdsSeq prot (some p))
 
 end BioCantor.Model.Agg
